@@ -715,8 +715,10 @@ def _unit_record(routine, fkey):
     imports = [{'mod': str(i.module).lower(), 'only': [str(s).lower() for s in (i.symbols or ())]}
                for i in routine.imports if not i.c_import]
     ifaces = [b.name.lower() for i in FindNodes(Interface).visit(routine.spec) for b in i.body if isinstance(b, Subroutine)]
+    # `calls`: the names the routine depends on by name = CALL statements + routines declared in interface blocks (both are
+    # dependencies for the scheduler); `rcalls`: the CALL statements alone
     return {'name': routine.name.lower(), 'mod': routine.parent.name.lower() if routine.parent is not None else '',
-            'file': fkey, 'imports': imports, 'calls': calls, 'ifaces': ifaces}
+            'file': fkey, 'imports': imports, 'calls': list(dict.fromkeys(calls + ifaces)), 'rcalls': calls, 'ifaces': ifaces}
 
 
 def project_of_sources(sources, keys=None):
@@ -831,3 +833,173 @@ def tree_files(root):
         for f in fs:
             out.add(os.path.join(d, f))
     return out
+
+
+# ---------------------------------------------------------------------------------------------
+# C25: projection of the scheduler state after an item-changing transformation (from the IR)
+
+def seed_records(sched):
+    out = []
+    for s in sched.seeds:
+        s = str(s).lower()
+        if '#' in s:
+            sc, lo = s.split('#', 1)
+            out.append({'q': True, 'scope': sc, 'local': lo})
+        else:
+            out.append({'q': False, 'scope': '', 'local': s})
+    return out
+
+
+def observe_ops_state(sched, paths0):
+    """Projected state of the real scheduler (record `obs` of spec/Trace_SchedOps.tla).
+    paths0: {file id: path} of the rendered project (to tell which project files are untouched)."""
+    from loki.batch import FileItem, ProcedureItem, ModuleItem
+    cache = sched.item_factory.item_cache
+    srckey, srcs = {}, []
+
+    def key_of(src):
+        if id(src) not in srckey:
+            srckey[id(src)] = f's{len(srcs) + 1}'
+            srcs.append(src)
+        return srckey[id(src)]
+
+    centries, mods, procs = [], [], []
+    for k, it in cache.items():
+        if isinstance(it, FileItem):
+            continue
+        kind = KINDS.get(type(it).__name__, type(it).__name__)
+        live, irname = False, ''
+        try:
+            node = it.ir
+            live = node is not None
+            if live:
+                parent = getattr(node, 'parent', None)
+                irname = node.name.lower() if isinstance(it, ModuleItem) else \
+                    f"{parent.name.lower() if parent is not None else ''}#{node.name.lower()}"
+        except Exception:  # pylint: disable=broad-except
+            live = False
+        centries.append({'key': str(k).lower(), 'name': it.name.lower(), 'kind': kind, 'live': bool(live), 'irname': irname})
+        if not live or it.source is None:
+            continue
+        fkey = key_of(it.source)
+        if isinstance(it, ModuleItem):
+            m = it.ir
+            mods.append({'name': it.name.lower(), 'file': fkey,
+                         'imports': [{'mod': str(i.module).lower(), 'only': [str(s).lower() for s in (i.symbols or ())]}
+                                     for i in m.imports if not i.c_import],
+                         'vars': [v.name.lower() for v in m.variables], 'params': []})
+        elif isinstance(it, ProcedureItem):
+            r = _unit_record(it.ir, fkey)
+            r['name'], r['mod'] = it.local_name.lower(), (it.scope_name or '').lower()
+            procs.append(r)
+    nodes = []
+    for it in sched.items:
+        kind = KINDS.get(type(it).__name__, type(it).__name__)
+        src = getattr(it, 'source', None)
+        nm = it.name.lower()
+        nodes.append({'name': nm, 'kind': kind, 'ignored': bool(it.is_ignored), 'file': key_of(src) if src is not None else '',
+                      'role': str(it.role), 'same': cache.get(it.name) is it,
+                      'scope': nm.split('#')[0] if '#' in nm else '', 'local': nm.split('#')[-1]})
+    gsrcs = graph_files(sched)
+    pg = project_of_sources(gsrcs, {id(s): key_of(s) for s in gsrcs})
+    paths = [{'key': key_of(s), 'path': str(s.path)} for s in gsrcs]
+    used = {os.path.abspath(str(s.path)) for s in gsrcs if s.path is not None}
+    untouched = [fid for fid, p in paths0.items() if os.path.abspath(p) not in used]
+    return {'seeds': seed_records(sched), 'nodes': nodes, 'edges': [[a.name.lower(), b.name.lower()] for a, b in sched.dependencies],
+            'cache': centries, 'PC': {'mods': mods, 'procs': procs}, 'PG': pg, 'paths': paths, 'untouched': untouched, 'raised': ''}
+
+
+EMPTY_OBS = {'seeds': [], 'nodes': [], 'edges': [], 'cache': [], 'PC': {'mods': [], 'procs': []}, 'PG': {'mods': [], 'procs': []},
+             'paths': [], 'untouched': [], 'raised': ''}
+
+
+def write_and_link(sched, paths0, untouched, workdir, timeout=120):
+    """FileWriteTransformation into workdir/out, then gfortran: written files + untouched project files + a main program
+    that calls the seeds.  Returns 'ok' or a short failure text."""
+    import subprocess
+    from loki.transformations.build_system import FileWriteTransformation
+    out = os.path.join(workdir, 'out')
+    os.makedirs(out, exist_ok=True)
+    sched.build_args['output_dir'] = out
+    try:
+        sched.process(FileWriteTransformation())
+    except Exception as e:  # pylint: disable=broad-except
+        return f'write-raised:{type(e.__cause__ or e).__name__}'
+    written = sorted(os.path.join(out, f) for f in os.listdir(out))
+    others = [paths0[f] for f in untouched]
+    files = written + others
+    # order by module dependencies (text of the emitted files: only to order the compiler's command line)
+    import re
+    defs, uses = {}, {}
+    for f in files:
+        with open(f) as fh:
+            text = fh.read().lower()
+        for m in re.findall(r'^\s*module\s+(\w+)\s*$', text, flags=re.M):
+            defs.setdefault(m, f)
+        uses[f] = set(re.findall(r'^\s*use\s+(\w+)', text, flags=re.M))
+    order, state = [], {}
+
+    def visit(f):
+        if state.get(f):
+            return      # done, or a cycle (the compiler reports it)
+        state[f] = 1
+        for m in sorted(uses[f]):
+            if m in defs and defs[m] != f:
+                visit(defs[m])
+        state[f] = 2
+        order.append(f)
+    for f in files:
+        visit(f)
+    lines = ['program verif_main', '  implicit none', '  integer :: a', '  a = 0']
+    usel = []
+    for s in sched.seeds:
+        it = sched[s] if '#' in str(s) else (sched[f'#{s}'] or next((i for i in sched.items if i.local_name == str(s).lower()), None))
+        if it is None:
+            return f'seed-not-in-graph:{s}'
+        if it.scope_name:
+            usel.append(f'  use {it.scope_name}, only: {it.local_name}')
+        lines.append(f'  call {it.local_name}(a)')
+    lines[1:1] = usel
+    lines += ["  print *, a", 'end program verif_main']
+    main = os.path.join(workdir, 'verif_main.f90')
+    with open(main, 'w') as fh:
+        fh.write('\n'.join(lines) + '\n')
+    bdir = os.path.join(workdir, 'build')
+    os.makedirs(bdir, exist_ok=True)
+    def gf(args):
+        try:
+            p = subprocess.run(['gfortran', '-J', bdir] + args, cwd=bdir, stdout=subprocess.PIPE, stderr=subprocess.STDOUT,
+                               timeout=timeout, text=True, errors='replace')
+        except subprocess.TimeoutExpired:
+            return 124, 'gfortran-timeout'
+        return p.returncode, p.stdout
+
+    def first_error(text):
+        err = [ln for ln in text.splitlines() if 'Error' in ln or 'undefined reference' in ln or 'multiple definition' in ln]
+        return (err[0].strip()[:160] if err else text[-160:])
+
+    # the untouched project files only provide what the written files still refer to: their objects go into an archive
+    # (an untouched file that no longer compiles -- it uses a unit that was renamed -- is simply not available)
+    wset = set(written)
+    objs_w, objs_u = [], []
+    for f in order:
+        obj = os.path.join(bdir, f'o{len(objs_w) + len(objs_u)}.o')
+        rc, text = gf(['-c', f, '-o', obj])
+        if f in wset:
+            if rc != 0:
+                return 'gfortran:' + first_error(text)
+            objs_w.append(obj)
+        elif rc == 0:
+            objs_u.append(obj)
+    mobj = os.path.join(bdir, 'main.o')
+    rc, text = gf(['-c', main, '-o', mobj])
+    if rc != 0:
+        return 'gfortran:' + first_error(text)
+    lib = []
+    if objs_u:
+        subprocess.run(['ar', 'rcs', os.path.join(bdir, 'libuntouched.a')] + objs_u, cwd=bdir, check=False, timeout=timeout)
+        lib = ['-L', bdir, '-luntouched']
+    rc, text = gf(['-o', os.path.join(bdir, 'main.exe'), mobj] + objs_w + lib)
+    if rc != 0:
+        return 'gfortran:' + first_error(text)
+    return 'ok'
